@@ -3,3 +3,4 @@ import importlib, os, pkgutil
 for m in pkgutil.iter_modules([os.path.dirname(__file__)]):
     if m.name.startswith('c') and m.name[1:].isdigit():
         importlib.import_module(__name__ + '.' + m.name)
+from . import _round6  # noqa
